@@ -52,6 +52,29 @@ class Scratch(object):
             return f.read()
 
 
+class SamePlace(Scratch):
+    """like Scratch, but every use within this process gets the SAME directory, so that files of the same name are
+    written again and again with new content - a user who re-runs a conversion after editing the file.  Anything that
+    remembers a file by its path shows here.  For in-process, sequential use only."""
+    _dir = None
+
+    def __enter__(self):
+        if SamePlace._dir is None:
+            import atexit
+            SamePlace._dir = tempfile.mkdtemp(prefix="ttsame_")
+            atexit.register(shutil.rmtree, SamePlace._dir, True)
+        self.dir = SamePlace._dir
+        for f in os.listdir(self.dir):          # the directory starts empty; names repeat
+            try:
+                os.remove(os.path.join(self.dir, f))
+            except OSError:
+                pass
+        return self
+
+    def __exit__(self, *a):
+        pass
+
+
 def pmap(fn, items, workers=12):
     with ThreadPoolExecutor(max_workers=workers) as ex:
         return list(ex.map(fn, items))
